@@ -52,6 +52,25 @@ def last_store(p, attr):
     return st[-1] if st else None
 
 
+def _is_dyn_test(repo, ci, e, I):
+    """the test says "the prototype is resolved at run time": callable(I), isinstance(I, <the
+    deferred-expression classes>) (possibly through a module-level alias), or a disjunction with
+    such a disjunct"""
+    if isinstance(e, ast.BoolOp) and isinstance(e.op, ast.Or):
+        return any(_is_dyn_test(repo, ci, v, I) for v in e.values)
+    if isinstance(e, ast.Call) and isinstance(e.func, ast.Name) and e.func.id == 'callable' and len(e.args) == 1 and canon(e.args[0]) == I:
+        return True
+    if isinstance(e, ast.Call) and isinstance(e.func, ast.Name) and e.func.id == 'isinstance' and len(e.args) == 2 and canon(e.args[0]) == I:
+        t = e.args[1]
+        if isinstance(t, ast.Name):
+            for st in repo.modules[ci.module]['tree'].body:
+                if isinstance(st, ast.Assign) and len(st.targets) == 1 and isinstance(st.targets[0], ast.Name) and st.targets[0].id == t.id:
+                    t = st.value
+        names = {x.id for x in ast.walk(t) if isinstance(x, ast.Name)}
+        return bool(names & {'UnaryExpr', 'BinaryExpr', 'NaryExpr'})
+    return False
+
+
 def check_ctor_folds(ctx):
     repo = ctx.repo
     rule = 'C19-ctor-defaults'
@@ -165,7 +184,7 @@ def check_ctor_folds(ctx):
         I = '%s()' % P if shortcut else P
         dyn_marks = ('callable(%s)' % I, 'isinstance(%s, (UnaryExpr, BinaryExpr, NaryExpr,))' % I,
                      '(callable(%s) or isinstance(%s, (UnaryExpr, BinaryExpr, NaryExpr,)))' % (I, I))
-        dyn = any(g in dyn_marks for g in gt)
+        dyn = any(g in dyn_marks for g in gt) or any(pol and _is_dyn_test(repo, ci, g_, I) for g_, pol in p.guards)
         pkt = ('isinstance(%s, Packet)' % I) in gt and not dyn
         none = ('(%s is None)' % D) in gt
         given = ('(%s is not None)' % D) in gt
